@@ -141,33 +141,44 @@ def run_property(pid, tier, run_fn, extra=None):
     t0 = time.time()
     ctx = Ctx(pid, tier)
     evid_path = os.path.join(os.environ.get("SA_EVIDENCE_DIR") or os.path.join(VERIF, "evidence"), "%s.json" % pid)
+    err = None
     try:
         run_fn(ctx)
         if extra:
             extra(ctx)
-        counts = {}
-        for i in ctx.insts:
-            c = counts.setdefault(i.rule, {"ok": 0, "violation": 0, "info": 0})
-            c[i.status] = c.get(i.status, 0) + 1
-        any_violation = any(i.status == "violation" for i in ctx.insts)
-        for rule, n in ctx.floors.items():
-            c = counts.get(rule, {"ok": 0, "violation": 0})
-            have = c["ok"] + c["violation"]
-            if have < n and any_violation:
-                ctx.note("rule %s matched %d instances (floor %d): instances are missing, see the violations" %
-                         (rule, have, n))
-            elif have < n:
-                raise AnalysisError("rule=%s matched %d instances, fewer than the %d confirmed by hand "
-                                    "(an anchor vanished or an idiom is no longer recognised)" % (rule, have, n))
     except AnalysisError as e:
-        print("ANALYSIS-ERROR property=%s %s" % (pid, e))
-        _write_evidence(evid_path, pid, tier, ctx, t0, error=str(e))
-        return 2
+        err = str(e)
     except Exception:
         tb = traceback.format_exc()
-        print("ANALYSIS-ERROR property=%s internal error\n%s" % (pid, tb))
-        _write_evidence(evid_path, pid, tier, ctx, t0, error=tb.splitlines()[-1])
+        err = "internal error\n" + tb
+    known0 = {k["key"] for k in load_known().get("known", []) if k.get("property") == pid}
+    any_new = any(i.status == "violation" and i.key not in known0 for i in ctx.insts)
+    if err is not None and not any_new:
+        # nothing definite was found and part of the code could not be analysed: no verdict
+        print("ANALYSIS-ERROR property=%s %s" % (pid, err))
+        _write_evidence(evid_path, pid, tier, ctx, t0, error=err.strip().splitlines()[-1] if "internal error" in err else err)
         return 2
+    if err is not None:
+        # definite violations were recorded before the analysis stopped: they stand; the rest is reported as not analysed
+        ctx.note("analysis incomplete after the violations below: %s" % err.strip().splitlines()[-1 if "internal error" in err
+                                                                                                   else 0][:300])
+    counts = {}
+    for i in ctx.insts:
+        c = counts.setdefault(i.rule, {"ok": 0, "violation": 0, "info": 0})
+        c[i.status] = c.get(i.status, 0) + 1
+    any_violation = any(i.status == "violation" for i in ctx.insts)
+    for rule, n in ctx.floors.items():
+        c = counts.get(rule, {"ok": 0, "violation": 0})
+        have = c["ok"] + c["violation"]
+        if have < n and (any_violation or err is not None):
+            ctx.note("rule %s matched %d instances (floor %d): instances are missing, see the violations" %
+                     (rule, have, n))
+        elif have < n:
+            msg = ("rule=%s matched %d instances, fewer than the %d confirmed by hand "
+                   "(an anchor vanished or an idiom is no longer recognised)" % (rule, have, n))
+            print("ANALYSIS-ERROR property=%s %s" % (pid, msg))
+            _write_evidence(evid_path, pid, tier, ctx, t0, error=msg)
+            return 2
 
     rdir = os.path.join(os.path.dirname(evid_path), "replay")
     if os.path.isdir(rdir):
